@@ -196,7 +196,10 @@ class _Guard:
 _REPO = None
 
 
-def worker_init(repo, verif):
+def worker_init(repo, verif, import_first=False):
+    """import_first: import the library BEFORE jax_enable_x64 is switched on (the order used by the library's own tests
+    and notebooks); x64 is on for every construction and call either way.  Module-level constants evaluated at import
+    time are the only thing that can tell the two orders apart."""
     global _REPO
     _REPO = repo
     os.environ.setdefault("JAX_PLATFORMS", "cpu")
@@ -215,6 +218,10 @@ def worker_init(repo, verif):
     warnings.filterwarnings("ignore")
     import jax
 
+    if import_first:
+        import gaussian_toolbox  # noqa: F401  (float32 mode at import time)
+        from gaussian_toolbox import approximate_conditional, conditional, factor, measure, pdf  # noqa: F401
+        from gaussian_toolbox.experimental import truncated_measure  # noqa: F401
     jax.config.update("jax_enable_x64", True)
     cache = os.environ.get("GTMC_JAX_CACHE")
     if cache:
